@@ -300,6 +300,10 @@ class Row:
 
 
 # ------------------------------------------------------------------ the engine
+# bodies whose MIR some engine walked in this process (coverage map, see tools/coverage_map.py)
+ANALYSED_BODIES = set()
+
+
 class Engine:
     def __init__(self, fx, summaries=None, no_inline=(), inline_only=None, max_depth=MAX_DEPTH,
                  assume_no_overflow=True, opaque_pure=()):
@@ -324,6 +328,7 @@ class Engine:
 
     def cfg(self, fid):
         if fid not in self.cfgs:
+            ANALYSED_BODIES.add(fid)
             self.cfgs[fid] = cfgmod.CFG(self.fx.fns[fid])
         return self.cfgs[fid]
 
